@@ -21,6 +21,7 @@ type oblEvidence struct {
 	Trivial   int    `json:"concrete_true"`
 	Sat       int    `json:"sat"`
 	KnownSat  int    `json:"sat_in_known_finding_region"`
+	KnownUndecided int `json:"undecided_in_known_finding_region"`
 	Unknown   int    `json:"unknown"`
 	SolverMS  int64  `json:"solver_ms"`
 	Status    string `json:"status"` // discharged | known-finding | violated | unreproduced | inconclusive | unreached
@@ -191,12 +192,12 @@ func report(prop, tier string, seed int, l *Loaded, results []*taskResult, known
 		for _, id := range e.SortedObligations() {
 			o := e.Obl[id]
 			ev := oblEvidence{ID: id, Harness: tr.Harness, Arith: o.Arith, Paths: o.Paths, Unsat: o.Unsat, Trivial: o.Trivial,
-				Sat: o.Sat, KnownSat: o.KnownSat, Unknown: o.Unknown, SolverMS: o.SolverMS}
+				Sat: o.Sat, KnownSat: o.KnownSat, KnownUndecided: o.KnownUndecided, Unknown: o.Unknown, SolverMS: o.SolverMS}
 			base := strings.TrimSuffix(id, ".nopanic")
 			_, ev.ReachOK = e.ReachWit[base]
 			ev.ReachNote = reachNote[base]
 			ev.Status = "discharged"
-			if o.KnownSat > 0 {
+			if o.KnownSat > 0 || o.KnownUndecided > 0 {
 				ev.Status = "known-finding"
 			}
 			if o.Unknown > 0 {
